@@ -29,21 +29,32 @@ pub fn cells() -> Vec<(UniCfg, String)> {
     v
 }
 
-/// (constructor, base, sub-path, class)
-pub fn lookups() -> Vec<(Option<ProcCtor>, Base, &'static str, &'static str)> {
+/// (constructor, base, sub-path, class, operation: 0 open, 1 open_follow, 2 readlink)
+pub fn lookups() -> Vec<(Option<ProcCtor>, Base, &'static str, &'static str, u8)> {
     let mut v = Vec::new();
-    for ctor in [None, Some(ProcCtor::New), Some(ProcCtor::FromPlainOpen)] {
-        for base in [Base::Root, Base::SelfP, Base::ThreadSelf] {
-            v.push((ctor, base, "definitely-missing", "missing"));
-            v.push((ctor, base, "missing-dir/missing", "missing"));
-            if base == Base::Root {
-                v.push((ctor, base, "sys/kernel/ostype", "masked"));
-                v.push((ctor, base, "1/status", "masked-pid"));
-                v.push((ctor, base, "filesystems", "masked"));
-                v.push((ctor, base, "self/status", "existing"));
-            } else {
-                v.push((ctor, base, "status", "existing"));
-                v.push((ctor, base, "fd", "existing"));
+    for kind in [0u8, 1, 2] {
+        for ctor in [None, Some(ProcCtor::New), Some(ProcCtor::FromPlainOpen)] {
+            for base in [Base::Root, Base::SelfP, Base::ThreadSelf] {
+                v.push((ctor, base, "definitely-missing", "missing", kind));
+                v.push((ctor, base, "missing-dir/missing", "missing", kind));
+                if base == Base::Root {
+                    if kind != 2 {
+                        v.push((ctor, base, "sys/kernel/ostype", "masked", kind));
+                        v.push((ctor, base, "1/status", "masked-pid", kind));
+                        v.push((ctor, base, "filesystems", "masked", kind));
+                        v.push((ctor, base, "self/status", "existing", kind));
+                    }
+                    // links that subset=pid hides
+                    v.push((ctor, base, "mounts", "masked", kind));
+                    v.push((ctor, base, "net", "masked", kind));
+                    v.push((ctor, base, "self", "existing", kind));
+                } else if kind != 2 {
+                    v.push((ctor, base, "status", "existing", kind));
+                    v.push((ctor, base, "fd", "existing", kind));
+                } else {
+                    v.push((ctor, base, "exe", "existing", kind));
+                    v.push((ctor, base, "cwd", "existing", kind));
+                }
             }
         }
     }
@@ -60,7 +71,7 @@ pub fn plan(tier: &str, seed: u64) -> Vec<Batch> {
 }
 
 pub fn case_for(uni: &UniCfg, li: usize, privname: &str) -> Case {
-    let (ctor, base, path, class) = lookups()[li];
+    let (ctor, base, path, class, kind) = lookups()[li];
     let mut c = Case::new("C08", "matrix", uni.clone());
     let mut ops = Vec::new();
     let handle = match ctor {
@@ -70,22 +81,31 @@ pub fn case_for(uni: &UniCfg, li: usize, privname: &str) -> Case {
         }
         None => None,
     };
-    let mut o = OpSpec::new(Op::ProcOpen { handle, base, path: path.into(), flags: libc::O_RDONLY | libc::O_NONBLOCK, follow: false });
+    // (a non-following open of a link needs O_PATH)
+    let is_link = matches!(path, "mounts" | "net" | "self" | "exe" | "cwd");
+    let mut o = match kind {
+        0 => OpSpec::new(Op::ProcOpen { handle, base, path: path.into(), flags: if is_link { libc::O_PATH } else { libc::O_RDONLY | libc::O_NONBLOCK }, follow: false }),
+        1 => OpSpec::new(Op::ProcOpen { handle, base, path: path.into(), flags: libc::O_RDONLY | libc::O_NONBLOCK, follow: true }),
+        _ => OpSpec::new(Op::ProcReadlink { handle, base, path: path.into(), bufsz: 256 }),
+    };
     if handle.is_none() {
         o = o.c();
     }
     ops.push(o);
     c.jobs = vec![ops];
-    c.extra = json!({"class": class, "priv": privname, "ctor": format!("{ctor:?}"), "path": path});
+    let opname = ["open", "open_follow", "readlink"][kind as usize];
+    c.extra = json!({"class": class, "priv": privname, "ctor": format!("{ctor:?}"), "path": path, "operation": opname});
     c
 }
 
-pub const MAX_HANDLES: usize = 2;
+// (open_follow legitimately builds up to three: the readlink probe, the lookup itself and the
+// unmasked retry each may need an unmasked handle; the recursion this guards against builds hundreds)
+pub const MAX_HANDLES: usize = 4;
 pub const MAX_CALLS: usize = 2000;
 
 pub fn judge(case: &Case, out: &RunOut) -> Vec<(String, String)> {
     let mut v = Vec::new();
-    let rec = match out.records.iter().find(|r| matches!(r.spec.op, Op::ProcOpen { .. })) {
+    let rec = match out.records.iter().find(|r| matches!(r.spec.op, Op::ProcOpen { .. } | Op::ProcReadlink { .. })) {
         Some(r) => r,
         None => {
             // the constructor failed: fine unless it panicked
@@ -209,10 +229,10 @@ pub fn finalise(tier: &str, seed: u64, res: coord::CheckResult) -> i32 {
         tier,
         seed,
         "fault_enumeration",
-        "a finite configuration matrix enumerated completely: caller privilege {root; root with the new mount API refused (EPERM); root with only fsopen refused; real unprivileged uid without capabilities} x host /proc mounted with {default, hidepid=1, hidepid=2, hidepid=ptraceable, subset=pid} x procfs resolver {K, E} x constructor {global handle through the C API, ProcfsHandle::new, try_from_fd on a plain open} x base x sub-path {missing, missing in a missing directory, existing, masked-but-existing}; per lookup the seam counts procfs handles created, descriptors held and trapped calls; non-trivial and distinct = every cell x lookup is a distinct configuration",
+        "a finite configuration matrix enumerated completely: caller privilege {root; root with the new mount API refused (EPERM); root with only fsopen refused; real unprivileged uid without capabilities} x host /proc mounted with {default, hidepid=1, hidepid=2, hidepid=ptraceable, subset=pid} x procfs resolver {K, E} x operation {open, open_follow, readlink} x constructor {global handle through the C API, ProcfsHandle::new, try_from_fd on a plain open} x base x sub-path {missing, missing in a missing directory, existing file/directory/link, masked-but-existing file and link (mounts, net)}; per lookup the seam counts procfs handles created, descriptors held and trapped calls; non-trivial and distinct = every cell x lookup is a distinct configuration",
         res,
         extra,
-        vec!["the bounds (2 handles, 16 descriptors, 2000 calls per lookup) are the check's reading of 'a constant number'".into(), "RLIMIT_NOFILE is 256 in every universe so that an unbounded retry is observed instead of exhausting memory".into()],
+        vec!["the bounds (4 handles, 16 descriptors, 2000 calls per lookup) are the check's reading of 'a constant number'".into(), "RLIMIT_NOFILE is 256 in every universe so that an unbounded retry is observed instead of exhausting memory".into()],
         true,
         &|b, run| Some(case_for(&b.uni, run as usize, b.extra["priv"].as_str().unwrap_or(""))),
     )
